@@ -348,6 +348,7 @@ def key_forms(rng, n, k):
 
 def run(ctx):
     rng = ctx.rng
+    odd_key_types(ctx)
     # --- widths 1..3 exhaustive over key sets; insertion orders: all (w<=2, and w=3 in thorough) or 4 per set
     for n in (1, 2, 3):
         universe = list(range(1 << n))
@@ -446,6 +447,27 @@ def run(ctx):
                 k = rng.choice([0, 1, top - 1, rng.getrandbits(n)])
                 ins.append((rng.choice(key_forms(rng, n, k)), str(rng.getrandbits(4))))
         run_case(ctx, n, 'u4', ins, (), f'bad{t}')
+
+
+def odd_key_types(ctx):
+    """keys that are none of int / bytes / bit string / Address: refused, map unchanged (never silently ignored or stored)"""
+    HashMap, _, _ = _lib()
+    for bad in (3.0, None, [1], (1,), bytearray(b'\x01'), 1.5, {'k': 1}, True):
+        hm = HashMap(8).with_uint_values(8)
+        hm.set_int_key(5, 6)
+        before = dict(hm.map)
+        r = call(lambda: hm.set(bad, 7))
+        ctx.case(('odd-key', repr(bad)))
+        ctx.count('key:odd-type')
+        after = dict(hm.map)
+        if isinstance(bad, bool):
+            # bool IS an int in Python: True is key 1 (allowed either way, but then it must be stored under 1)
+            if not is_err(r) and after != {**before, 1: 7}:
+                ctx.fail('badkey-accepted:bool', 'set(True, v) neither refused nor stored under key 1', {'key': repr(bad)}, repr(after), 'key 1 or DictError')
+            continue
+        if not is_err(r) or after != before:
+            ctx.fail('badkey-accepted:type', f'a key of type {type(bad).__name__} was not refused (or changed the map)', {'key': repr(bad)},
+                     'returned' if not is_err(r) else repr(after), 'DictError, map unchanged')
 
 
 def replay(ctx, payload):
